@@ -63,6 +63,9 @@ Proof.
   destruct (code_kw_cases v) as [E|[E|E]]; rewrite E; destruct ver; reflexivity.
 Qed.
 
+Lemma from_code_id : forall c, from_code c = c.
+Proof. intros [v s m ver]. reflexivity. Qed.
+
 Lemma code_first_roundtrip : forall c, code_first (DSeq [code_ds c]) = Ok c.
 Proof. intros. cbn [code_first]. apply code_roundtrip. Qed.
 
